@@ -1,5 +1,10 @@
 import GLua.Engines.TableEng
 import GLua.Engines.SemEng
+import GLua.Engines.CancelEng
+import GLua.Engines.MetaEng
+import GLua.Engines.ChanEng
+import GLua.Engines.CoEng
+import GLua.Engines.UpvalEng
 import GLua.Engines.StrEng
 import GLua.Engines.RequireEng
 import GLua.Engines.IoEng
@@ -9,6 +14,10 @@ open GLua GLua.Eng
 
 structure DState where
   tbl : TableEng.St := []
+  meta04 : MetaEng.St := {}
+  chan : ChanEng.St := {}
+  co : CoEng.St := {}
+  uv : UpvalEng.St := {}
   req : RequireEng.St := {}
   io : IoEng.St := {}
   api : ApiEng.St := {}
@@ -20,6 +29,11 @@ def stepLine (s : DState) (line : String) : DState × String :=
   | "reset" :: _ => ({}, "ok")
   | "T" :: r => let (t, v) := TableEng.handle s.tbl r; ({ s with tbl := t }, v.show)
   | "S" :: r => (s, SemEng.handle r)
+  | "C11M" :: r => (s, (CancelEng.handle r).show)
+  | "C04M" :: r => let (t, v) := MetaEng.handle s.meta04 r; ({ s with meta04 := t }, MetaEng.render v)
+  | "C13" :: r => let (t, v) := ChanEng.handle s.chan r; ({ s with chan := t }, v.show)
+  | "C06M" :: r => let (t, v) := CoEng.handle s.co r; ({ s with co := t }, v.show)
+  | "C03M" :: r => let (t, v) := UpvalEng.handle s.uv r; ({ s with uv := t }, v.show)
   | "C15" :: r => (s, (StrEng.handle r).show)
   | "C20" :: r => let (t, v) := RequireEng.handle s.req r; ({ s with req := t }, v.show)
   | "IO" :: r => let (t, v) := IoEng.handle s.io r; ({ s with io := t }, v.show)
